@@ -133,6 +133,13 @@ pub proof fn lemma_args(rest: Seq<Frame>)
     assert(bulks_from(t, 0) =~= bulks_from(a, 1));
 }
 
+/// Forwarding wrapper (verified, not trusted): calling `Command::try_from` from another module makes this Verus build
+/// panic (vir::assoc_types_to_air); rule R-tryfrom-call routes the call in server.rs through here.
+pub fn verif_command_try_from(frame: Frame) -> (r: Result<Command, Error>)
+    ensures r is Ok <==> spec_command(fview(&frame)) is Some,
+            r matches Ok(c) ==> Some(cview(&c)) == spec_command(fview(&frame)),
+{ Command::try_from(frame) }
+
 pub proof fn lemma_names()
     ensures str_bytes("DEL") == b_del(), str_bytes("GET") == b_get(), str_bytes("SET") == b_set()
 {
